@@ -162,7 +162,9 @@ class C16(Check):
                 cells[k] = v
             idx = sx.Array(cells, sx.int64)
             out = cur[idx]
-            return out, ref.select(lambda rows: [_sel_row(cells[k], rows) for k in range(M)])
+            r = ref.select(lambda rows: [_sel_row(cells[k], rows) for k in range(M)])
+            r.ite_rows = True  # weights are if-then-else terms: exp() of them stays opaque
+            return out, r
         if kind == "split_concat":
             k = op[1]
             parts = [cur[:k], cur[k:]]
@@ -223,6 +225,12 @@ class C16(Check):
             ctx.prove(len(ht) == len(want), pre + "/weights", detail={"field": k})
             for i, (a, b) in enumerate(zip(ht, want)):
                 ctx.prove(a == b, pre + "/weights", detail={"field": k, "row": i})
+        if cfg["cls"] == "Samples" and "log_w" in ref.extra and pre == "select" and not scalar and n >= 1 and not getattr(ref, "ite_rows", False):
+            # the effective sample size attached to the selection is that of the selected weights
+            W = [sx.term(sx.exp(sx.asarray(t))) for t in ref.extra["log_w"]]
+            s1 = z3.Sum(W)
+            s2 = z3.Sum([w * w for w in W])
+            ctx.prove(sx.term(out.effective_sample_size) * s2 == s1 * s1, "select/ess_of_selection")
         ctx.prove(out.parameters == params, pre + "/parameters", detail={"parameters": out.parameters})
         ctx.prove(out.xp is sx, pre + "/namespace")
         ctx.prove(out.dtype == orig.dtype and out.x.dtype == orig.x.dtype, pre + "/dtype", detail={"dtype": repr(out.dtype)})
@@ -328,6 +336,14 @@ def replay_c16(cex):
                 have, want = getattr(cur, k), ref[k]
                 if (have is None) != (want is None) or (want is not None and not np.array_equal(np.asarray(have), want)):
                     bad.append(f"{k} differs from the reference selection")
+            if "log_w" in extra and len(extra["log_w"]) >= 1 and np.ndim(extra["log_w"]) == 1:
+                from scipy.special import logsumexp as _lse
+
+                lw = np.asarray(extra["log_w"], float)
+                ess = float(np.exp(2 * _lse(lw) - _lse(2 * lw)))
+                got = float(cur.effective_sample_size)
+                if not abs(got - ess) <= 1e-9 * max(1.0, ess):
+                    bad.append(f"effective_sample_size of the selection {got!r}, recomputed {ess!r}")
             for k, want in extra.items():
                 have = getattr(cur, k, None)
                 if have is None or not np.allclose(np.asarray(have), want, rtol=0, atol=0):
